@@ -11,7 +11,7 @@ props=$(python3 -c "import json;print(' '.join(c['property_id'] for c in json.lo
 for d in seeded/*/; do
   id=$(basename $d)
   git -C $REPO checkout -q -- .
-  if ! git -C $REPO apply $d/patch.diff 2>/dev/null; then echo "$id DOES-NOT-APPLY"; continue; fi
+  if ! git -C $REPO apply "$(pwd)/$d/patch.diff" 2>/dev/null; then echo "$id DOES-NOT-APPLY"; continue; fi
   line="$id:"
   for p in $props; do
     ./check $p > /tmp/matrix.$$.out 2>&1; rc=$?
